@@ -342,6 +342,11 @@ func (c *ckRun) write(pages []int) error {
 	if err := ckExec(c.sdb, req); err != nil {
 		return err
 	}
+	return c.observeWrite(pages)
+}
+
+// observeWrite looks at the WAL file after a write: did SQLite append or restart, which frames were added.
+func (c *ckRun) observeWrite(pages []int) error {
 	salt, has, fr, err := ckReadWAL(c.path+"-wal", c.root)
 	if err != nil {
 		return err
@@ -539,6 +544,9 @@ func ckRunOne(w *ndWriter, st *ckStats, s ckSched, np int, tmo time.Duration) (e
 		case "ckpt.check":
 			s0, _ := e.KV["salt0"].(uint32)
 			s1, _ := e.KV["salt1"].(uint32)
+			if n, _ := e.KV["start"].(int64); n > 0 {
+				st.Resumed++
+			}
 			w.Write(map[string]any{"ev": e.Ev, "salt": c.saltID([2]uint32{s0, s1}), "start": e.KV["start"], "reset": e.KV["reset"]})
 		case "ckpt.compact":
 			b, _ := e.KV["bytes"].(int64)
@@ -642,29 +650,13 @@ func ckptReplay(args []string) error {
 			}
 		}
 	}
-	if *in != "" {
-		f, err := os.Open(*in)
-		if err != nil {
-			return err
-		}
-		dec := json.NewDecoder(f)
-		for i := 0; ; i++ {
-			var s ckSched
-			if err := dec.Decode(&s); err == io.EOF {
-				break
-			} else if err != nil {
-				return err
-			}
-			if i%*of != *shard {
-				continue
-			}
-			if s.ID == "" {
-				s.ID = fmt.Sprintf("spec-%d", i)
-			}
-			st.FromSpec++
-			run(s)
-		}
-		f.Close()
+	scheds, err := ckLoadScheds(*in, *shard, *of)
+	if err != nil {
+		return err
+	}
+	for _, s := range scheds {
+		st.FromSpec++
+		run(s)
 	}
 	rng := newRand(int64(7919 * (*shard + 1)))
 	for i := 0; i < *nrand; i++ {
@@ -676,7 +668,41 @@ func ckptReplay(args []string) error {
 	if err := w.Close(); err != nil {
 		return err
 	}
-	b, _ := json.Marshal(st)
+	return ckPrintStats(st)
+}
+
+func ckPrintStats(st *ckStats) error {
+	b, err := json.Marshal(st)
 	fmt.Println(string(b))
-	return nil
+	return err
+}
+
+// ckLoadScheds reads the schedules of this shard from an ndjson file ("" = none).
+func ckLoadScheds(path string, shard, of int) ([]ckSched, error) {
+	if path == "" {
+		return nil, nil
+	}
+	f, err := os.Open(path)
+	if err != nil {
+		return nil, err
+	}
+	defer f.Close()
+	var out []ckSched
+	dec := json.NewDecoder(f)
+	for i := 0; ; i++ {
+		var s ckSched
+		if err := dec.Decode(&s); err == io.EOF {
+			break
+		} else if err != nil {
+			return nil, err
+		}
+		if i%of != shard {
+			continue
+		}
+		if s.ID == "" {
+			s.ID = fmt.Sprintf("spec-%d", i)
+		}
+		out = append(out, s)
+	}
+	return out, nil
 }
